@@ -1,8 +1,115 @@
+/-
+  C01 — line-protocol ops of the wire-format model.
+
+    c01.ser.tx  <tx>            Model.serTx                      → hex | err:<family>
+    c01.spec.tx <tx>            Spec.txBytes                     → hex
+    c01.ser.hdr / c01.spec.hdr <header>,  c01.ser.blk / c01.spec.blk <block>   likewise
+    c01.de.<k> <hex> <pad>      Serializable.deserialize(buf, allow_padding=pad) for
+                                k ∈ {tx, txm (CMutableTransaction), hdr, blk}
+                                → ok:<obj>:R<b> | extra:<obj>:<padhex>:R<b> | err:<family>
+                                (R1 iff the parsed object re-serialises to the consumed bytes)
+    c01.cuts.<k> <hex> <pos>    the c01.de outcome (pad = 0) of buf[:p] for every p in <pos>
+                                (`*` = every strict prefix), run-length encoded
+                                `<first p>x<count>=<outcome>` joined by `;`
+-/
 import Driver.Util
+import Driver.TxFmt
+import BtcVerif.Model.Wire
+import BtcVerif.Model.Ident
+import BtcVerif.Spec.Wire
 
 namespace Driver.C01
-open BtcVerif Driver
+open BtcVerif Driver Driver.TxFmt
+open BtcVerif.Model.Wire
 
-def handle (_op : String) (_args : List String) : Option String := none
+def renderBytes (r : Res Bytes) : String :=
+  match r with
+  | .ok b => toHex b
+  | .error e => "err:" ++ e.family
+
+structure Kind (α : Type) where
+  parser : Parser α
+  ser : α → Res Bytes
+  render : α → String
+
+def kTx : Kind Tx := ⟨deTx, fun t => serTx t, showTx⟩
+def kTxM : Kind Tx := ⟨Model.Ident.deTxMutable, fun t => serTx t, showTx⟩
+def kHdr : Kind Header := ⟨deHeader, serHeader, showHeader⟩
+def kBlk : Kind Block := ⟨deBlock, fun b => serBlock b, showBlock⟩
+
+def rflag (b : Bool) : String := if b then "R1" else "R0"
+
+def renderDe {α} (k : Kind α) (buf : Bytes) (pad : Bool) : String :=
+  match deserialize k.parser buf pad with
+  | .err e => "err:" ++ e.family
+  | .ok obj =>
+      let r := match k.ser obj with
+        | .ok s => if pad then s.isPrefixOf buf else s == buf
+        | .error _ => false
+      s!"ok:{k.render obj}:{rflag r}"
+  | .extra obj p =>
+      let r := match k.ser obj with
+        | .ok s => s ++ p == buf
+        | .error _ => false
+      s!"extra:{k.render obj}:{toHex p}:{rflag r}"
+
+/-- run-length encoding of (position, outcome) in list order -/
+def rle (xs : List (Nat × String)) : String :=
+  let groups := xs.foldl (fun (acc : List (Nat × Nat × String)) (p, o) =>
+    match acc with
+    | (s, c, o') :: rest => if o' == o then (s, c + 1, o') :: rest else (p, 1, o) :: acc
+    | [] => [(p, 1, o)]) []
+  ";".intercalate (groups.reverse.map fun (s, c, o) => s!"{s}x{c}={o}")
+
+def cuts {α} (k : Kind α) (buf : Bytes) (pos : List Nat) : String :=
+  rle (pos.map fun p => (p, renderDe k (buf.take p) false))
+
+def parsePad? (s : String) : Option Bool :=
+  if s == "0" then some false else if s == "1" then some true else none
+
+def parsePos? (s : String) (n : Nat) : Option (List Nat) :=
+  if s == "*" then some (List.range n) else parseNatList? s
+
+def deOp {α} (k : Kind α) (hex pad : String) : String :=
+  match parseHex? hex, parsePad? pad with
+  | some b, some p => renderDe k b p
+  | _, _ => badArgs
+
+def cutsOp {α} (k : Kind α) (hex pos : String) : String :=
+  match parseHex? hex with
+  | some b => (match parsePos? pos b.length with
+      | some ps => cuts k b ps
+      | none => badArgs)
+  | none => badArgs
+
+def handle (op : String) (args : List String) : Option String :=
+  match op, args with
+  | "c01.ser.tx", [t] => some <| match parseTx? t with
+      | some t => renderBytes (serTx t)
+      | none => badArgs
+  | "c01.spec.tx", [t] => some <| match parseTx? t with
+      | some t => toHex (Spec.Wire.txBytes t)
+      | none => badArgs
+  | "c01.ser.hdr", [h] => some <| match parseHeader? h with
+      | some h => renderBytes (serHeader h)
+      | none => badArgs
+  | "c01.spec.hdr", [h] => some <| match parseHeader? h with
+      | some h => toHex (Spec.Wire.header h)
+      | none => badArgs
+  | "c01.ser.blk", [b] => some <| match parseBlock? b with
+      | some b => renderBytes (serBlock b)
+      | none => badArgs
+  | "c01.spec.blk", [b] => some <| match parseBlock? b with
+      | some b => toHex (Spec.Wire.block b)
+      | none => badArgs
+  | "c01.de.tx", [h, p] => some (deOp kTx h p)
+  | "c01.de.txm", [h, p] => some (deOp kTxM h p)
+  | "c01.de.hdr", [h, p] => some (deOp kHdr h p)
+  | "c01.de.blk", [h, p] => some (deOp kBlk h p)
+  | "c01.cuts.tx", [h, p] => some (cutsOp kTx h p)
+  | "c01.cuts.txm", [h, p] => some (cutsOp kTxM h p)
+  | "c01.cuts.hdr", [h, p] => some (cutsOp kHdr h p)
+  | "c01.cuts.blk", [h, p] => some (cutsOp kBlk h p)
+  | _, _ => none
 
 end Driver.C01
